@@ -184,6 +184,23 @@ Proof.
   apply contains_lstrip; exact Hc.
 Qed.
 
+Lemma contains_clstrip c s : is_cws c = false -> contains_char c (clstrip s) = contains_char c s.
+Proof.
+  intro Hc. induction s as [|x s IH]; [reflexivity|]. cbn [clstrip].
+  destruct (is_cws x) eqn:Hx; [|reflexivity].
+  rewrite IH. unfold contains_char. cbn [existsb].
+  destruct (ascii_eqb c x) eqn:E; [|reflexivity].
+  apply ascii_eqb_eq in E. subst x. congruence.
+Qed.
+
+Lemma contains_cstrip c s : is_cws c = false -> contains_char c (cstrip s) = contains_char c s.
+Proof.
+  intro Hc. unfold cstrip, contains_char. rewrite existsb_rev.
+  fold (contains_char c (clstrip (rev (clstrip s)))). rewrite contains_clstrip by exact Hc.
+  unfold contains_char. rewrite existsb_rev. fold (contains_char c (clstrip s)).
+  apply contains_clstrip; exact Hc.
+Qed.
+
 Lemma int_body_dot acc p t : contains_char c_dot t = true -> int_body acc p t = None.
 Proof.
   revert acc p. induction t as [|c r IH]; intros acc p H; [discriminate|].
@@ -197,8 +214,8 @@ Qed.
 
 Lemma int_of_str_dot s : contains_char c_dot s = true -> py_int_of_str s = Err EValue.
 Proof.
-  intro H. rewrite <- (contains_strip c_dot s) in H by reflexivity.
-  unfold py_int_of_str. destruct (strip s) as [|c r]; [reflexivity|].
+  intro H. rewrite <- (contains_cstrip c_dot s) in H by reflexivity.
+  unfold py_int_of_str. destruct (cstrip s) as [|c r]; [reflexivity|].
   unfold contains_char in H. cbn [existsb] in H.
   destruct (ascii_eqb c c_dash) eqn:E1.
   - apply ascii_eqb_eq in E1. subst c. cbn [orb] in H.
@@ -235,8 +252,8 @@ Lemma point_literal_dot s : point_literal s = true -> contains_char c_dot s = tr
 Proof.
   unfold point_literal. intro H.
   assert (Hc : contains_char c_dot s = true).
-  { rewrite <- (contains_strip c_dot s) by reflexivity.
-    destruct (strip s) as [|c r]; [discriminate|].
+  { rewrite <- (contains_cstrip c_dot s) by reflexivity.
+    destruct (cstrip s) as [|c r]; [discriminate|].
     destruct (ascii_eqb c c_dash || ascii_eqb c "+"%char).
     - destruct (split_once c_dot r) as [a [b|]] eqn:E; [|discriminate].
       unfold contains_char. cbn [existsb]. fold (contains_char c_dot r).
@@ -325,7 +342,7 @@ Qed.
 
 Lemma as_int_str_int e s z :
   py_int_of_str s = Ok z ->
-  (match e with V1 => load_int_v1 O (JStr s) | _ => as_int O (JStr s) end) = Ok z.
+  (match e with V1 => load_int_v1 (JStr s) | _ => as_int (JStr s) end) = Ok z.
 Proof.
   intro H. destruct (int_of_str_shape s z H) as [Hne Hdot].
   destruct e; cbn [as_int load_int_v1]; rewrite Hdot; try exact H.
@@ -358,7 +375,7 @@ Proof.
       rewrite (rounds_to_fl_round f n) by assumption; reflexivity.
   - destruct (point_literal_dot s) as [Hd Hne]; [assumption|].
     destruct e; try discriminate; cbn [load_scalar as_int]; (destruct s; [congruence|]);
-      rewrite Hd; match goal with Hf : o_float_of_str O _ = Ok _ |- _ => rewrite Hf end; cbn [bind];
+      rewrite Hd; match goal with Hf : py_float_of_str _ = Ok _ |- _ => rewrite Hf end; cbn [bind];
       rewrite (rounds_to_fl_round f n) by assumption; reflexivity.
   - destruct e; try discriminate; reflexivity.
   - destruct e; try discriminate; reflexivity.
@@ -372,13 +389,13 @@ Proof.
     destruct f as [m e0| |]; [|contradiction|contradiction].
     match goal with Hi : integral _ _ |- _ => destruct (integral_spec _ _ _ Hi) as [Hx1 Hx2] end.
     cbn [load_scalar load_int_v1]. rewrite Hd.
-    match goal with Hf : o_float_of_str O _ = Ok _ |- _ => rewrite Hf end. cbn [bind].
+    match goal with Hf : py_float_of_str _ = Ok _ |- _ => rewrite Hf end. cbn [bind].
     rewrite Hx1, Hx2. reflexivity.
   - destruct (point_literal_dot s) as [Hd Hne]; [assumption|].
     destruct f as [m e0| |]; [|contradiction|contradiction].
     match goal with Hi : fractional _ |- _ => pose proof (fractional_spec _ _ Hi) as Hx1 end.
     cbn [load_scalar load_int_v1]. rewrite Hd.
-    match goal with Hf : o_float_of_str O _ = Ok _ |- _ => rewrite Hf end. cbn [bind].
+    match goal with Hf : py_float_of_str _ = Ok _ |- _ => rewrite Hf end. cbn [bind].
     rewrite Hx1. rewrite (int_of_str_dot s Hd). reflexivity.
   - reflexivity.
   (* enum *)
@@ -416,11 +433,11 @@ Proof.
   - destruct e; reflexivity.
   - cbn [load_scalar load_datetime_env]. rewrite numeric_form_doc.
     match goal with Hn : numeric_doc _ = true |- _ => rewrite Hn end.
-    match goal with Hf : o_float_of_str O _ = Ok _ |- _ => rewrite Hf end. reflexivity.
+    match goal with Hf : py_float_of_str _ = Ok _ |- _ => rewrite Hf end. reflexivity.
   (* timedelta *)
   - cbn [load_scalar as_timedelta]. rewrite numeric_form_doc.
     match goal with Hn : numeric_doc _ = true |- _ => rewrite Hn end.
-    match goal with Hf : o_float_of_str O _ = Ok _ |- _ => rewrite Hf end. reflexivity.
+    match goal with Hf : py_float_of_str _ = Ok _ |- _ => rewrite Hf end. reflexivity.
   - cbn [load_scalar as_timedelta]. rewrite numeric_form_doc.
     match goal with Hn : numeric_doc _ = false |- _ => rewrite Hn end.
     match goal with Hf : o_timeparse O _ = Ok _ |- _ => rewrite Hf end. reflexivity.
